@@ -235,6 +235,13 @@ Definition with_default {X} (d : option default_def) (failed panicked : X) (k : 
 Definition load (proxy : bool) (d : option default_def) (r : rule_def) : load_res effective :=
   with_default d FactoryFailed FactoryPanic (fun def => Loaded (create_rule proxy def r)).
 
+(** A history of CreateRule calls on ONE factory instance.  The fields of ruleFactory (hf, logger, defaultRule,
+    hasDefaultRule, mode, defaultBacktracking) are written by NewRuleFactory / initWithDefaultRule only; CreateRule
+    reads them and keeps nothing, so the n-th result is [create_rule] of the n-th definition.  (That the code has
+    no such memory is what the "history" stream checks: every call of a generated history is compared on its own.) *)
+Definition create_history (proxy : bool) (def : option effective) (rs : list rule_def) : list (res effective) :=
+  map (create_rule proxy def) rs.
+
 (** ** Execution: rule_impl.go Execute *)
 
 (** A probe is one request together with the way the stub mechanisms of the
